@@ -63,6 +63,18 @@ pub enum Profile {
   Basic,
   Nested,
   Unsafe,
+  /// nested object with a non-stored, nullable, indexed+fast property:
+  /// compaction cannot rebuild it and must refuse
+  UnsafeNested,
+}
+
+impl Profile {
+  pub fn compact_unsafe(self) -> bool {
+    matches!(self, Profile::Unsafe | Profile::UnsafeNested)
+  }
+  pub fn nested(self) -> bool {
+    matches!(self, Profile::Nested | Profile::UnsafeNested)
+  }
 }
 
 #[derive(Clone, Copy, Debug, PartialEq, Eq, Serialize, Deserialize, Hash, PartialOrd, Ord)]
@@ -106,7 +118,7 @@ pub fn schema(profile: Profile) -> Schema {
         {"name": "hid", "analyzer": "default", "stored": false, "indexed": true}
       ));
     }
-    Profile::Nested => {
+    Profile::Nested | Profile::UnsafeNested => {
       v["nested_fields"] = json!([
         {
           "name": "items",
@@ -120,6 +132,11 @@ pub fn schema(profile: Profile) -> Schema {
           ]
         }
       ]);
+      if profile == Profile::UnsafeNested {
+        v["nested_fields"][0]["fields"].as_array_mut().unwrap().push(json!(
+          {"type": "keyword", "name": "lang", "stored": false, "indexed": true, "fast": true, "nullable": true}
+        ));
+      }
     }
   }
   serde_json::from_value(v).expect("schema json")
@@ -153,16 +170,29 @@ pub fn make_doc(profile: Profile, id: &str, ver: u64) -> Document {
     Profile::Unsafe => {
       fields.insert("hid".into(), json!(format!("secret{} hid{}", nextr() % 3, ver)));
     }
-    Profile::Nested => {
+    Profile::Nested | Profile::UnsafeNested => {
+      let with_lang = profile == Profile::UnsafeNested;
       let item = |r: u64, ver: u64| -> Value {
         let k = ["a", "b", "c"][(r % 3) as usize];
-        match (r / 3) % 5 {
+        let mut o = match (r / 3) % 5 {
           0 => json!({"k": k}),
           1 => json!({"k": k, "q": (ver % 7) as i64}),
           2 => json!({"k": [k, "z"], "q": null, "subs": [{"s": "x"}, {"s": "y"}]}),
           3 => json!({"k": k, "q": 3, "subs": {"s": k}}),
           _ => json!({"k": k, "subs": []}),
+        };
+        if with_lang {
+          match (r / 15) % 3 {
+            0 => {
+              o["lang"] = json!(["en", "fr", "de"][((r / 45) % 3) as usize]);
+            }
+            1 => {
+              o["lang"] = Value::Null;
+            }
+            _ => {}
+          }
         }
+        o
       };
       match nextr() % 6 {
         0 => {}
@@ -215,7 +245,7 @@ pub fn stored_projection(profile: Profile, doc: &Document) -> Value {
         }
       }
       "hid" => {}
-      "items" if profile == Profile::Nested => {
+      "items" if profile.nested() => {
         if let Some(p) = project_nested(v, 0) {
           out.insert(k.clone(), p);
         }
@@ -286,7 +316,13 @@ pub enum Op {
   Compact,
   Reopen,
   /// copy the index to a new root; 0 keep the original, 1 empty it, 2 remove it
-  Relocate { original: u8 },
+  Relocate {
+    original: u8,
+    /// name of the new root: 0 unrelated, 1 a textual prefix of the current
+    /// name, 2 the current name plus a suffix
+    #[serde(default)]
+    naming: u8,
+  },
   /// open a reader and keep it
   OpenReader { r: usize },
   /// search again on a kept reader: must still show its snapshot
@@ -319,7 +355,7 @@ impl Op {
       Op::DropWriter { h } => format!("drop(w{})", h),
       Op::Compact => "compact()".into(),
       Op::Reopen => "reopen()".into(),
-      Op::Relocate { original } => format!("relocate(original={})", original),
+      Op::Relocate { original, naming } => format!("relocate(original={}, naming={})", original, naming),
       Op::OpenReader { r } => format!("r{}=reader()", r),
       Op::CheckReader { r } => format!("r{}.search()", r),
     }
@@ -413,6 +449,7 @@ pub fn gen_ops(rng: &mut Rng, cfg: &Cfg, p: &GenParams) -> Vec<Op> {
         readers.clear();
         ops.push(Op::Relocate {
           original: rng.below(3) as u8,
+          naming: rng.below(3) as u8,
         });
       }
       9 => {
